@@ -451,6 +451,115 @@ pub fn judge(cfg: &Cfg, path: &str, st: &FileState, pre: &BucketM, post: &Bucket
     }
 }
 
+/// Second-level crashes: crash inside this commit with the header write torn front-to-back or
+/// back-to-front, recover with the real library, run one more commit, crash again in every way of
+/// the bounded model, recover again.  The second recovery must show the state before or after that
+/// second commit.
+fn level2(sc: &Script, trace: &CommitTrace, path: &str, emit: &mut dyn FnMut(&str)) -> Value {
+    let (specs, _) = trace.enumerate();
+    let mut firsts: Vec<&ImageSpec> = vec![];
+    for sp in &specs {
+        if sp.class != "torn-header-words" || !sp.present.iter().enumerate().all(|(i, p)| *p || sp.torn.as_ref().map(|t| t.0 == i).unwrap_or(false)) {
+            continue;
+        }
+        if let Some((_, _, units)) = &sp.torn {
+            // contiguous from the front or from the back over the words that differ
+            let idx: Vec<usize> = units.iter().enumerate().filter(|(_, u)| **u).map(|(i, _)| i).collect();
+            let set: Vec<usize> = (0..units.len()).collect();
+            let _ = set;
+            let first = *idx.first().unwrap_or(&0);
+            let last = *idx.last().unwrap_or(&0);
+            let contiguous = idx.len() == last - first + 1;
+            if contiguous {
+                firsts.push(sp);
+            }
+        }
+    }
+    let follow = Action::Tx { ops: vec![OpSpec::bucket("goc", &[], "l2"), OpSpec::put(&["l2"], "k", "w*300"), OpSpec::put(&["l2"], "k2", "v*20")], commit: true };
+    let mut viols = vec![];
+    let mut generated = 0u64;
+    let mut probed = 0u64;
+    let mut seen: HashSet<u128> = HashSet::new();
+    for (fi, sp1) in firsts.iter().enumerate() {
+        let st1 = trace.image(sp1);
+        write_image(path, &st1);
+        // recover and find out which state it is
+        let cfg = sc.cfg.clone();
+        let state1 = match guarded(|| -> Result<BucketM, String> {
+            let db = cfg.open(path).map_err(|e| format!("{:?}", e))?;
+            let tx = db.tx(false).map_err(|e| format!("{:?}", e))?;
+            real::dump_tx(&tx)
+        }) {
+            Ok(Ok(m)) => m,
+            _ => continue, // reported by the first-level enumeration
+        };
+        let model1 = if state1.same_contents(&trace.pre) {
+            trace.pre.clone()
+        } else if state1.same_contents(&trace.post) {
+            trace.post.clone()
+        } else {
+            continue;
+        };
+        // one more commit on the recovered file, with its I/O logged
+        write_image(path, &st1);
+        let mut r = match Runner::adopt(path, sc.cfg.clone(), model1.clone()) {
+            Ok(r) => r,
+            Err(_) => continue,
+        };
+        let pre_full = std::fs::read(path).unwrap_or_default();
+        let pre_len = pre_full.len() as u64;
+        let hw = pre_full.iter().rposition(|b| *b != 0).map(|p| p + 1).unwrap_or(0);
+        let (v, events) = iosim::logged(|| r.step(&follow, &Oracles::NONE));
+        if !v.is_empty() || r.poisoned {
+            viols.push(json!([fi, "commit_after_recovery", format!("after recovering from a torn header the next commit failed: {:?}", v.iter().map(|x| x.class.clone()).collect::<Vec<_>>()), sp1.to_json()]));
+            continue;
+        }
+        let post2 = r.model.clone();
+        drop(r);
+        let mut epochs: Vec<Vec<FOp>> = vec![vec![]];
+        for ev in events {
+            match ev {
+                IoEvent::Write { off, data } => epochs.last_mut().unwrap().push(FOp::Write { off, data }),
+                IoEvent::Fallocate { off, len } => epochs.last_mut().unwrap().push(FOp::Extend { len: off + len }),
+                IoEvent::Ftruncate { len } => epochs.last_mut().unwrap().push(FOp::Extend { len }),
+                IoEvent::Fsync => epochs.push(vec![]),
+                _ => {}
+            }
+        }
+        if epochs.last().map(|e| e.is_empty()).unwrap_or(false) {
+            epochs.pop();
+        }
+        if epochs.is_empty() {
+            continue;
+        }
+        let t2 = CommitTrace { pre_image: pre_full[..hw].to_vec(), pre_len, epochs, pre: model1, post: post2, pagesize: sc.cfg.pagesize };
+        let (specs2, _) = t2.enumerate();
+        for (k, sp2) in specs2.iter().enumerate() {
+            if !(sp2.class == "torn-header-words" || sp2.class == "complete" || sp2.class == "subset") {
+                continue;
+            }
+            generated += 1;
+            let st2 = t2.image(sp2);
+            let mut hb = st2.bytes.clone();
+            hb.extend_from_slice(&st2.len.to_le_bytes());
+            let must_be_post = sp2.class == "complete";
+            if !seen.insert(hash128(&hb) ^ must_be_post as u128) {
+                continue;
+            }
+            emit(&format!("l2 {} {}", fi, k));
+            probed += 1;
+            if let Some((c, d)) = judge(&sc.cfg, path, &st2, &t2.pre, &t2.post, must_be_post) {
+                if viols.len() < 50 {
+                    viols.push(json!([k, format!("second_crash:{}", c), format!("first crash: header write torn ({}); recovered; one more commit; second crash image class {}: {}", sp1.to_json()["torn"], sp2.class, d), json!({"first": sp1.to_json(), "second": sp2.to_json()})]));
+                }
+            }
+        }
+    }
+    let mut classes = serde_json::Map::new();
+    classes.insert("second-level".into(), json!(generated));
+    json!({"generated": generated, "probed": probed, "capped": false, "v": viols, "ops_per_epoch": trace.epochs.iter().map(|e| e.len()).collect::<Vec<_>>(), "saw_pre": 0, "saw_post": 0, "classes": classes, "level2_first_images": firsts.len()})
+}
+
 pub fn worker(idx: usize) {
     real::install_quiet_panic_hook();
     let scratch = report::scratch_dir();
@@ -480,6 +589,9 @@ pub fn worker(idx: usize) {
             Ok(Err(e)) => return json!({"err": e}).to_string(),
             Err(_) => return json!({"err": "trace thread panicked"}).to_string(),
         };
+        if j["level2"].as_bool().unwrap_or(false) {
+            return level2(sc, &trace, &path, emit).to_string();
+        }
         let (specs, capped) = trace.enumerate();
         let last_epoch = trace.epochs.len() - 1;
         let mut seen: HashSet<u128> = HashSet::new();
@@ -538,6 +650,10 @@ pub fn run(check: &mut Check) {
             for part in 0..parts {
                 jobs.push(json!({"script": si, "step": step, "part": part, "parts": parts}).to_string());
                 meta.push((si, step, part));
+            }
+            if !sc.name.starts_with("kv2-") || (tier == Tier::Thorough && si % 7 == 0) {
+                jobs.push(json!({"script": si, "step": step, "part": 0, "parts": 1, "level2": true}).to_string());
+                meta.push((si, step, 999));
             }
         }
     }
